@@ -33,6 +33,12 @@ FAMILIES = {
     "lb_nested_plus": ("(?<=(a+)+b)c", lambda n: "a" * n + "c", True),
     "lb_in_loop": ("(a(?<=(a|aa)+b))*c", lambda n: "a" * n, True),
     "neg_lb": ("(?<!(a+)+b)c", lambda n: "a" * n + "c", True),
+    # patterns that can match the empty string: every scanning API must still advance
+    "empty_star": ("a*", lambda n: "a" * min(n, 40) + "b" + "a" * 3, False),
+    "empty_group_star": ("(a*)*", lambda n: "ab" * min(n, 20), False),
+    "empty_anchor": ("$|^", lambda n: "a\nb" * min(n, 10), False),
+    "empty_boundary": ("\\b", lambda n: "ab cd " * min(n, 8), False),
+    "empty_lookahead": ("(?=a)", lambda n: "a" * min(n, 30), True),
     "benign_scan": ("ab", lambda n: "a" * n, False),
     "quadratic_class": ("[a-c]+d", lambda n: "abc" * (n // 3), False),
 }
@@ -60,12 +66,13 @@ def render(cell):
     pat, sb, _ = FAMILIES[cell["family"]]
     subj = sb(cell["n"])
     pj = json.dumps(pat)
+    fl = cell.get("flags", "")
     if cell["build"] == "literal":
-        R, RG = "/%s/" % pat, "/%s/g" % pat
+        R, RG = "/%s/%s" % (pat, fl), "/%s/g%s" % (pat, fl)
     elif cell["build"].startswith("setup_"):
         R, RG = "rxs", "rxsg"
     else:
-        R, RG = "new RegExp(%s)" % pj, "new RegExp(%s,'g')" % pj
+        R, RG = "new RegExp(%s,'%s')" % (pj, fl), "new RegExp(%s,'g%s')" % (pj, fl)
     call = APIS[cell["api"]] % {"R": R, "RG": RG, "P": pj}
     wrap = cell.get("wrap", "none")
     body = "var r0 = %s;" % call
@@ -78,9 +85,10 @@ def setup_src(cell):
     if not cell["build"].startswith("setup_"):
         return None
     pat = FAMILIES[cell["family"]][0]
+    fl = cell.get("flags", "")
     if cell["build"] == "setup_literal":
-        return "var rxs=/%s/, rxsg=/%s/g; 'setup';" % (pat, pat)
-    return "var rxs=new RegExp(%s), rxsg=new RegExp(%s,'g'); 'setup';" % (json.dumps(pat), json.dumps(pat))
+        return "var rxs=/%s/%s, rxsg=/%s/g%s; 'setup';" % (pat, fl, pat, fl)
+    return "var rxs=new RegExp(%s,'%s'), rxsg=new RegExp(%s,'g%s'); 'setup';" % (json.dumps(pat), fl, json.dumps(pat), fl)
 
 
 def n_cases(tier):
@@ -114,7 +122,8 @@ def gen_case(seed, i, tier="quick"):
     else:
         stack = rng.choice((100, 1000, 10000))
     poll = rng.choice((1, 7, 100))
-    cell = {"family": fam, "api": api, "build": rng.choice(BUILDS), "n": n, "wrap": rng.choice(("none", "none", "try"))}
+    cell = {"family": fam, "api": api, "build": rng.choice(BUILDS), "n": n, "wrap": rng.choice(("none", "none", "try")),
+            "flags": rng.choice(("", "", "", "y", "y", "i", "m", "s", "iy", "my"))}
     timed = rng.random() < 0.5
     tick = 10 ** rng.uniform(-6, -4)
     case = {"property": PROPERTY, "seed": seed, "index": i, "cell": cell,
@@ -293,6 +302,8 @@ def features(case, res=None):
     f = ["family:" + c["family"], "api:" + c["api"]]
     if c["build"] != "literal":
         f.append("build:" + c["build"])
+    if c.get("flags"):
+        f.append("flags:" + c["flags"])
     if c.get("wrap", "none") != "none":
         f.append("wrap:" + c["wrap"])
     if case.get("T_work"):
@@ -328,6 +339,8 @@ def shrink_candidates(case):
         yield mk(wrap="none")
     if c["build"] != "literal":
         yield mk(build="literal")
+    if c.get("flags"):
+        yield mk(flags="")
     if c["api"] != "test":
         yield mk(api="test")
     kn = case["knobs"]
@@ -345,7 +358,7 @@ def nontrivial_key(case, res):
     exhausted = res["work"] > 2 * case["knobs"]["step_limit"] or res["outcome"] != "value"
     if not exhausted and not res.get("fired"):
         return None
-    return "|".join([c["family"], c["api"], c["build"], str(case["knobs"]["step_limit"]), str(case["knobs"]["stack_limit"]),
+    return "|".join([c["family"], c["api"], c["build"], c.get("flags", ""), str(case["knobs"]["step_limit"]), str(case["knobs"]["stack_limit"]),
                      "T" if case.get("T_work") else "-", res["outcome"], res.get("landing", "")])
 
 
